@@ -4,7 +4,7 @@
 VERUS_TRUST = [
     'A3: vstd specifications of Vec, HashMap, slices, arrays (assumed to describe std)',
     'A4: Z3 4.12 and the Verus VC generator / Rust front end',
-    'extraction: tools/weave.py copies item text verbatim from /repo/src and applies only rules R0-R3 (DESIGN.md 2.2)',
+    'extraction: tools/weave.py copies item text verbatim from /repo/src and applies only the desugaring rules R0-R10 of DESIGN.md 2.2 (applications counted per function in functions_under_contract)',
 ]
 
 PROPS = {
@@ -236,22 +236,27 @@ PROPS = {
         unverified=['last_use_map', 'RegisterAllocator::convert_circuit loop', 'register_circuit::Circuit::validate / eval (see C16)'],
     ),
     'C08': dict(
-        units=[],
+        units=['patterns'],
         deps=[],
         witness=['c08', '--random', '4000'],
         witness_thorough=['c08', '--random', '400000'],
-        level='exploration',
-        technique='bounded differential stand-in (no function of the exhaustiveness checker is under contract yet): check / compile / eval on the real code vs brute-force enumeration of the scrutinee domain',
-        claim='BOUNDED, NOT A PROOF. The usefulness algorithm (usefulness / specialize / split_ctor / split_*_range) recurses over Vec<TypedPattern> stacks with '
-              'String- and HashMap-keyed definitions, sort/dedup/windows and closures; it has not been brought under Verus contracts in this round. '
-              'As the labelled stand-in, random and directed arm lists (literals, inclusive / exclusive ranges at MIN/MAX/0 and adjacent / overlapping '
-              'boundaries, wildcards, bindings, tuples, enum variants with payload, nested) over 12 scrutinee types are decided on the real checker and '
-              'compared with brute-force enumeration: the match must be accepted exactly when every value (whole domain for 8-bit and structured types, one '
-              'representative per boundary-induced region otherwise) is matched by some arm, and every accepted match is compiled and evaluated on every '
-              'representative value against the first matching arm.',
-        note='Oracle: the pattern matcher in replay/src/c08.rs (30 lines). Missing-case witnesses of rejected matches are not decoded. '
-             'Range-pattern parsing is exercised only through source text.',
-        title='match exhaustiveness and first-match semantics: bounded differential only (no contract yet)',
-        unverified=['everything: usefulness, specialize, split_ctor, split_unsigned_range, split_signed_range, match lowering in compile'],
+        level='proof',
+        technique='Verus contracts on the real integer constructor splitting of the exhaustiveness checker (split_unsigned_range, split_signed_range: '
+                  'loop invariants over the split points, sort/dedup by trusted specifications); bounded differential check of whole matches on the real code',
+        claim='Deductive proof (Verus/Z3), for every arm list, every integer type and every range [min, max], on the real split_unsigned_range and '
+              'split_signed_range (where the boundary arithmetic of the property lives): (cover) every value of the range lies in some returned constructor, '
+              '(homogeneous) no arm head - literal, inclusive range (exclusive ranges are stored as end-1), binding, signed or unsigned - distinguishes two '
+              'values of one returned constructor, so deciding a constructor decides each of its values, (non-empty) every returned constructor denotes at '
+              'least one value; no arithmetic overflow at 0 / MIN / MAX / u64::MAX. The usefulness recursion (usefulness / specialize / split_ctor over '
+              'tuples, structs, enums, arrays), pattern typing, parsing and the match lowering in compile are NOT under contract: as the labelled bounded '
+              'stand-in, random and directed arm lists over 12 scrutinee types are decided on the real checker and compared with brute-force enumeration '
+              '(accepted exactly when every value is matched; every accepted match compiled and evaluated against the first matching arm).',
+        note='Trusted: <[T]>::sort_unstable returns a sorted permutation and Vec::dedup keeps the same elements and makes a sorted vector strictly increasing '
+             '(assume_specification + two admitted axioms for u128 / i128); vstd; rules R0, R7, R10 (windows(2) -> index loop). Oracle of the bounded part: '
+             'the pattern matcher in replay/src/c08.rs. Missing-case witnesses of rejected matches are not decoded.',
+        title='match exhaustiveness: integer constructor splitting covers the range and is homogeneous for every arm list (proved); usefulness recursion '
+              'and first-match lowering by bounded differential',
+        unverified=['usefulness, specialize, split_ctor (recursion over pattern stacks; tuple / struct / enum / array constructors): bounded differential only',
+                    'pattern type checking, range pattern parsing', 'match lowering in compile (has_prev_match chain, TypedPattern::compile): bounded differential only'],
     ),
 }
